@@ -36,12 +36,11 @@ theorem C10_igs_third_is_IDF002 : ∀ e ∈ T.igs, igsHeaderOk T e.2 = true := b
 theorem C10_pinned_sizes :
     ∀ p ∈ Pinned.sizes, (getDict T p.1).map (sizeForm T) = some p.2 := by decide +kernel
 
-/-- **the definitions are the standards' definitions**: for the 121 identities whose layout is
-    pinned (observations, station messages, GPS / GLONASS ephemerides, 1029, 1230, SSR 1057-1068,
-    all 49 MSM, IGS SSR 021-027 of six constellations and 201) the regenerated definition has
+/-- **the definitions are the standards' definitions**: for the 152 identities whose layout is
+    pinned (every definition of the pinned tree: standard messages, all 49 MSM, IGS SSR) the regenerated definition has
     exactly the pinned field sequence, repeat counters and conditions — so two fields of equal
     width cannot be transposed, nor a group counted by another field, without this breaking.
-    One-directional: identities that are not pinned are free. -/
+    One-directional: new identities are free. -/
 theorem C10_definitions_pinned :
     ∀ p ∈ Pinned.defs, (getDict T p.1).map (itemsTokens T) = some p.2 := by decide +kernel
 
